@@ -43,6 +43,24 @@ def handleC05 (inp obs : List String) : Verdict :=
   match parsed, pobs with
   | some ((regions, ops), _), some (o, _) =>
     let n := regions.length
+    -- LARGE region lists (more than 3000 regions): the model (an index over the regions built with an insertion sort) and
+    -- the class histogram are quadratic; only the spec itself is evaluated on the implementation's observable
+    if n > 3000 then
+      match o with
+      | none => { kind := "specfail", nontrivial := true, classes := ["large"], detail := "implementation panicked" }
+      | some steps =>
+        if steps.length != ops.length then { kind := "badcase", detail := "observable length" } else
+        let bad := ((prefixes ops).zip steps).find? (fun (p, st) =>
+          !(st.dense == specCountsFast regions p && st.sparse == st.dense && st.dtotal == specTotal p && st.stotal == st.dtotal && st.dlen == n && st.slen == n))
+        match bad with
+        | some (p, st) =>
+          let sp := specCountsFast regions p
+          let da := st.dense.toArray; let sa := st.sparse.toArray; let spa := sp.toArray
+          let i := ((List.range n).find? (fun i => da.getD i 0 != spa.getD i 0 || sa.getD i 0 != spa.getD i 0)).getD 0
+          { kind := "specfail", nontrivial := true, classes := ["large"],
+            detail := s!"after {p.length} ops ({n} regions): totals {st.dtotal}/{st.stotal} (spec {specTotal p}) len {st.dlen}/{st.slen}; first differing region {i}: dense {da.getD i 0} sparse {sa.getD i 0} spec {spa.getD i 0}" }
+        | none => { kind := "ok", nontrivial := true, classes := ["large"] }
+    else
     let tags := ops.filterMap (fun | .insert t _ => some t | _ => none)
     let inserts := ops.filter (fun | .insert _ _ => true | .insertAt _ _ => true | _ => false)
     let final := specCounts regions ops
